@@ -72,6 +72,7 @@ def writeCmpM (n : Node) (v : Val) (op : Op) (right : Seg) : CmpOut :=
 def cmpN (cfg : GenCfg) (n : Node) (v : Val) (p : List Seg) (op : Op) (right : Seg) : Option CmpOut :=
   match p with
   | [] =>
+    if n.ptr && right.text == nilText && !cfg.elemNilCmpMissing then some (writeCmpM n v op right) else
     match n with
     | .basic i => if i.ptr && v.isNilPtr then some .untouched else some (writeCmpM n v op right)
     | _ => none
